@@ -220,6 +220,17 @@ def check_mp(ctx, cases, f, res, prop_for_est=False, known=None):
     est_queries = []
     for c in cfgs:
         impl = {p: run_impl(c, p, lines) for p in ctx.profiles}
+        # a definite answer is judged as its consumer sees it: packed by the implementation's own extended_to_float
+        # (a producer and the packer may disagree about the hidden bit: seed C11-f), not by a formula of the check
+        packed = {}
+        for p in ctx.profiles:
+            idx, q2 = [], []
+            for i, I in enumerate(impl[p]):
+                tt = I.split()
+                if len(tt) == 2 and not I.startswith(("panic", "abort")) and tt[1].lstrip("-").isdigit() and int(tt[1]) >= 0:
+                    idx.append(i); q2.append("e2f %s %s %s" % (f, tt[0], tt[1]))
+            outs = run_impl(c, p, q2) if q2 else []
+            packed[p] = dict(zip(idx, outs))
         model = run_model(c, "release", lines)
         for i, line in enumerate(lines):
             m, trap, s = _mod().parse_model(model[i])
@@ -241,6 +252,9 @@ def check_mp(ctx, cases, f, res, prop_for_est=False, known=None):
                 mant, exp = int(mant), int(exp)
                 if exp >= 0:
                     bits = "%x" % (mant | (exp << F["mbits"]))
+                    pk = packed[p].get(i)
+                    if pk is not None and not pk.startswith(("panic", "abort")):
+                        bits = pk.strip().lower()
                     if bits != lo or (trunc and bits != hi):
                         res.viol.append(("confidently-wrong", dict(case=line, cfg=c, profile=p, impl=I, bits=bits, rne_at_w=lo, rne_left_at_w1=hi, family=fam)))
                     if m.startswith("panic"):
@@ -353,6 +367,8 @@ def run_C05(ctx, rng, tier, res, known):
         cases += gens.gen_bigint_ties(rng, f, 1200 if q else 30000)
         cases += gens.gen_near_tie_posexp(rng, f, 1000 if q else 30000)
         cases += gens.gen_pow10_prefix(rng, f)
+        # operands of the final big-integer comparison that differ in limb count (stack vs heap ordering, seed C05-e)
+        cases += gens.gen_limb_boundary(f)
         # the (w, q) pairs whose 128-bit product has an all-ones low word (the fall-back inside Eisel-Lemire
         # that only the non-compact builds have), as parser inputs
         tbl = gens.read_lemire_table(os.path.join(WORK, "dump.std.txt"))
@@ -405,6 +421,7 @@ def run_C06(ctx, rng, tier, res, known):
         cases += gens.gen_bigint_ties(rng, f, 1200 if tier == "quick" else 30000)
         cases += gens.gen_near_tie_posexp(rng, f, 1200 if tier == "quick" else 30000)
         cases += gens.gen_pow10_prefix(rng, f)
+        cases += gens.gen_limb_boundary(f)[:: (3 if tier == "quick" else 1)]
     _mod().check_pf("C06", cases, ctx.cfgs, ctx.profiles, res, known)
     # internal-stage detector for parse_mantissa (digit bookkeeping); never a verdict by itself
     pm = []
@@ -824,6 +841,7 @@ def run_C11(ctx, rng, tier, res, known):
         cases += gens.gen_mp_ties(rng, f)
         cases += gens.gen_mp_guard(rng, f, tbl, 600 if q else 20000)
         cases += gens.gen_mp_exact_guard(rng, f)
+        cases += gens.gen_mp_carry_seams(rng, f)
         fq = _mod().focus_q_from_tables()
         if fq:
             cases += gens.gen_mp_near_halfway(rng, f, 40000, focus_q=fq)
